@@ -94,55 +94,78 @@ def run(prog, tier):
 
     # ---------------------------------------------------------------- piecewise_linear_sample
     ps = prog.function(REL, "piecewise_linear_sample")
-    xs, pd = ps.args.args[0].arg, ps.args.args[1].arg
-    ex = Expander(prog, mi, None)
-    ex.on_if = lambda node, env: "skip"
-    env = {xs: R.sym("X"), pd: R.sym("P"), ps.args.args[2].arg: R.sym("n")}
+    xs, pd, ns = ps.args.args[0].arg, ps.args.args[1].arg, ps.args.args[2].arg
     ret = last_return(ps)
-    guard(lambda: ex.run_until(ps.body, env, ret))
-    p1, p0 = R.sym("P[1:]"), R.sym("P[:-1]")
-    x1, x0 = R.sym("X[1:]"), R.sym("X[:-1]")
-    means, delta, dx = env.get("means"), env.get("delta"), env.get("dx")
-    if means is None or delta is None or dx is None:
-        raise AnalysisError("anchor vanished: means / delta / dx in piecewise_linear_sample")
-    obs.append(formula_ob("delta-form", fqual(mi, ps) + "[slope]", delta, (p1 - p0).div(p1 + p0), REL, ps.lineno,
-                          what="delta = (p1 - p0)/(p1 + p0), the slope parameter of the cell's linear density"))
-    obs.append(formula_ob("delta-form", fqual(mi, ps) + "[cdf-link]", p0.div(means), 1 - delta, REL, ps.lineno,
-                          what="p0/mean = 1 - delta, i.e. delta is the dh of the CDF  dh*u^2 + (1-dh)*u  that the transform inverts"))
-    # cell-weight: the un-normalised weights assigned before `weights /= weights.sum()`
-    wdefs = [s for s in ps.body if isinstance(s, ast.Assign) and U(s.targets[0]) == "weights"]
-    wnorm = [s for s in ps.body if isinstance(s, ast.AugAssign) and U(s.target) == "weights"]
-    if len(wdefs) != 1:
-        raise AnalysisError("anchor vanished: weights definition in piecewise_linear_sample")
-    ex2 = Expander(prog, mi, None)
-    ex2.on_if = lambda node, env: "skip"
-    env2 = {xs: R.sym("X"), pd: R.sym("P")}
-    guard(lambda: ex2.run_until(ps.body, env2, wdefs[0]))
-    w = guard(lambda: ex2.eval(wdefs[0].value, env2))
-    want_w = Fraction(1, 2) * (p1 + p0) * (x1 - x0)
-    ratio = anf.proportional(w, want_w)
-    ok = ratio is not None and ratio > 0
-    normalised = len(wnorm) == 1 and isinstance(wnorm[0].op, ast.Div) and U(wnorm[0].value) == "weights.sum()"
-    obs.append(struct_ob("cell-weight", fqual(mi, ps), ok and normalised,
-                         f"cell probabilities must be proportional to mean height x width = 1/2 (p1+p0)(x1-x0) and normalised by "
-                         f"their sum; code has weights = {w} (ratio to the reference: {ratio}); normalised by sum: {normalised}",
-                         REL, wdefs[0].lineno, slots={"weights": str(w)}))
-    # sample-form
-    inds = env.get("inds")
-    src = {U(s.targets[0]): s.value for s in ps.body if isinstance(s, ast.Assign)}
-    ic = src.get("inds")
-    ok_i = (isinstance(ic, ast.Call) and U(ic.func) == "rng.choice" and U(ic.args[0]) == "weights.size"
-            and any(k.arg == "p" and U(k.value) == "weights" for k in ic.keywords)
-            and any(k.arg == "size" and U(k.value) == ps.args.args[2].arg for k in ic.keywords))
-    obs.append(struct_ob("sample-form", fqual(mi, ps) + "[cell-choice]", ok_i,
-                         f"cells must be drawn with probabilities `weights`: `{U(ic) if ic is not None else None}`",
-                         REL, ps.lineno))
-    tz = src.get("trapz")
-    ok_s = (tz is not None and U(tz) == "trapezium_transform(rng.random(size=n_samples), delta[inds]) * dx[inds]"
-            and U(ret.value) == f"{xs}[inds] + trapz")
-    obs.append(struct_ob("sample-form", fqual(mi, ps) + "[position]", ok_s,
-                         f"samples must be x[k] + T(U, delta[k]) * dx[k] for the chosen cell k: trapz = "
-                         f"`{U(tz) if tz is not None else None}`; return `{U(ret.value)}`", REL, ret.lineno))
+    rzp = Resolver(ps, prog, mi, None)
+    rt = rzp.term(ret.value, ret)
+    # roles, from the resolved return term:  x[k] + T(U, DELTA[k]) * DX[k]  with  k = rng.choice(W.size, size=n, p=W)
+    b = None
+    for pat in (f"{xs}[_k] + trapezium_transform(rng.random(size={ns}), _d[_k]) * _w[_k]",
+                f"{xs}[_k] + trapezium_transform(rng.random({ns}), _d[_k]) * _w[_k]"):
+        b = pmatch(rt, pat)
+        if b is not None:
+            break
+    okpos = b is not None
+    obs.append(struct_ob("sample-form", fqual(mi, ps) + "[position]", okpos,
+                         f"samples must be x[k] + T(U, delta[k]) * dx[k] for the chosen cell k, all three indexed by the same draw: "
+                         f"returned term `{U(rt)[:300]}`", REL, ret.lineno))
+    ABS = [(f"{pd}[1:]", "P1"), (f"{pd}[:-1]", "P0"), (f"{xs}[1:]", "X1"), (f"{xs}[:-1]", "X0")]
+    p1, p0 = R.sym("P1"), R.sym("P0")
+    x1, x0 = R.sym("X1"), R.sym("X0")
+
+    def nf(text_or_node):
+        node = ast.parse(text_or_node, mode="eval").body if isinstance(text_or_node, str) else text_or_node
+        ab, _ = abstract(node, ABS + [("_z.sum()", "TOTAL")])
+        return anf_of(ab)
+    if b is None:
+        for rule_, det_ in (("delta-form", "[slope]"), ("cell-weight", ""), ("sample-form", "[cell-choice]")):
+            obs.append(struct_ob(rule_, fqual(mi, ps) + det_, False, "the sample position is not of the recognised form (see sample-form[position])",
+                                 REL, ps.lineno))
+    else:
+        kb = None
+        for pat in (f"rng.choice(_W.size, size={ns}, p=_W)", f"rng.choice(_W.size, {ns}, p=_W)", f"rng.choice(len(_W), size={ns}, p=_W)"):
+            kb = pmatch(ast.parse(b["_k"], mode="eval").body, pat)
+            if kb is not None:
+                break
+        obs.append(struct_ob("sample-form", fqual(mi, ps) + "[cell-choice]", kb is not None,
+                             f"cells must be drawn as rng.choice(W.size, size=n, p=W): `{b['_k'][:200]}`", REL, ps.lineno))
+        try:
+            delta = nf(b["_d"])
+            okd = delta.eq((p1 - p0).div(p1 + p0))
+            whyd = f"code has {delta}"
+        except Unsupported as e:
+            okd, whyd = False, f"`{b['_d'][:160]}` is outside the algebra ({e})"
+        obs.append(struct_ob("delta-form", fqual(mi, ps) + "[slope]", okd,
+                             "delta = (p1 - p0)/(p1 + p0), the slope parameter of the cell's linear density (the dh of the CDF "
+                             "dh*u^2 + (1-dh)*u that the transform inverts), whatever the scale of the table: " + whyd, REL, ps.lineno, tier="F"))
+        try:
+            width = nf(b["_w"])
+            okw_ = width.eq(x1 - x0)
+        except Unsupported:
+            okw_ = False
+        obs.append(struct_ob("delta-form", fqual(mi, ps) + "[cell-width]", okw_,
+                             f"the offset inside the cell is scaled by the cell's own width x[k+1] - x[k]: `{b['_w'][:160]}`", REL, ps.lineno, tier="F"))
+        okcw, whyw = False, "cell choice not recognised"
+        if kb is not None:
+            wb = None
+            wnode = ast.parse(kb["_W"], mode="eval").body
+            for pat in ("_a / _a.sum()", "_a / sum(_a)"):
+                wb = pmatch(wnode, pat)
+                if wb is not None:
+                    break
+            if wb is None:
+                whyw = f"weights `{kb['_W'][:200]}` are not <cell probabilities> divided by their own sum"
+            else:
+                try:
+                    w = nf(wb["_a"])
+                    ratio = anf.proportional(w, Fraction(1, 2) * (p1 + p0) * (x1 - x0))
+                    okcw = ratio is not None and ratio > 0
+                    whyw = f"code has weights = {w} (ratio to the reference: {ratio}), normalised by their sum"
+                except Unsupported as e:
+                    whyw = f"weights outside the algebra ({e})"
+        obs.append(struct_ob("cell-weight", fqual(mi, ps), okcw,
+                             "cell probabilities must be proportional to mean height x width = 1/2 (p1+p0)(x1-x0) and normalised by "
+                             "their sum; " + whyw, REL, ps.lineno, tier="F"))
 
     # ---------------------------------------------------------------- evaluate_conditional: normalised on the returned grid
     ec = prog.function(REL, "evaluate_conditional")
